@@ -161,8 +161,8 @@ CHECKS = {
  "C13": ("model_checking",
          "explicit-state BFS over deletion triggers and evaluations with a table of every handle ever seen",
          "One model with inheritance, child spaces, parametrised spaces (own ItemSpaces, ItemSpaces with another base, nested child), "
-         "object-valued references; 22 edits (every way a deletion can be triggered) + 10 evaluations, all histories to depth 3 (4), "
-         "not merged. After every history: unreachable handles raise DeletedObjectError on every probe (attribute, call, "
+         "object-valued references; 26 edits (every way a deletion can be triggered, a partial clear) + 12 evaluations, all histories "
+         "to depth 3 (4) from the cold state and to depth 2 (3) from the state in which everything was evaluated, not merged. After every history: unreachable handles raise DeletedObjectError on every probe (attribute, call, "
          "subscription, edit); reachable ones do not; no bases list / graph node / preds-succs listing mentions a dead object; "
          "static objects == those of a fresh model that replayed the edits; values live == fresh.",
          "Trusted: reachability through public containers as definition of 'deleted', cross-checked with the fresh model.",
